@@ -37,7 +37,7 @@ var opTable = []opSpec{
 var mechTable = []opSpec{
 	{"afterDeleteCall", "cache", "afterDeleteCall", nil, "loadInstall", nil},
 	{"evictNode", "cache", "evictNode", nil, "evict", nil},
-	{"deleteNode", "cache", "deleteNode", nil, "deleteNode", nil},
+	{"InvalidateAll", "cache", "InvalidateAll", nil, "deleteNode", map[string]string{"cache.Invalidate": "InvalidateCall"}},
 }
 
 type opRun struct {
@@ -99,6 +99,7 @@ type tableComp struct {
 	cur, key, exit string
 	enter, exitIdx int
 	closed         bool
+	next           int // index of the next computation's enter (or len(trace)): the events up to there belong to this one
 }
 
 func comps(o *psOutcome, enterKind, exitKind string) []*tableComp {
@@ -125,7 +126,16 @@ func comps(o *psOutcome, enterKind, exitKind string) []*tableComp {
 	return out
 }
 
-func tableComps(o *psOutcome) []*tableComp { return comps(o, "ComputeEnter", "ComputeExit") }
+func tableComps(o *psOutcome) []*tableComp {
+	cs := comps(o, "ComputeEnter", "ComputeExit")
+	for i, c := range cs {
+		c.next = len(o.S.trace)
+		if i+1 < len(cs) {
+			c.next = cs[i+1].enter
+		}
+	}
+	return cs
+}
 
 func isZeroTerm(t string) bool { return t == "nil" || t == "zero" }
 
